@@ -419,7 +419,24 @@ class VM:
                         ns.steps = st.steps
                         if mon is not None:
                             mon.rewind(self, st, ns)
-                        if can_cont:
+                        # the jump of this snapshot is now taken.  Runs-forever detection: exact repetition of
+                        # (pc, memory) at a taken backward jump on one timeline (the visited set is part of the
+                        # snapshot, so it is restored on rewind)
+                        dv = None
+                        if ns.pc <= ns.prev_pc:
+                            mk = self.mem_key(ns)
+                            key = (ns.pc, mk, ns.nev)
+                            if key in ns.seen:
+                                dv = 'diverge'
+                            elif (ns.pc, mk) in ns.seen:
+                                dv = 'diverge-output'      # same machine state, more output: repeats for ever
+                            else:
+                                ns.seen = ns.seen | {key, (ns.pc, mk)}
+                        if dv is not None:
+                            res.append(Path(dv, hconds, ns.ev, ns.pc, ns.m))
+                            if not can_cont:
+                                return
+                        elif can_cont:
                             self.nforks += 1
                             work.append((ns, tuple(hconds)))
                         else:
@@ -442,18 +459,6 @@ class VM:
                     mon.jump(self, st, ins, tgt, A[0])
                 snap = st.copy()
                 snap.pc = tgt
-                if tgt <= pc:
-                    mk = self.mem_key(st)
-                    key = (tgt, mk, st.nev)
-                    if key in st.seen:
-                        res.append(Path('diverge', conds, st.ev, tgt, st.m))
-                        return
-                    if (tgt, mk) in st.seen:
-                        # same machine state, more output: the run repeats this output for ever
-                        res.append(Path('diverge-output', conds, st.ev, tgt, st.m))
-                        return
-                    st.seen = st.seen | {key, (tgt, mk)}
-                    snap.seen = st.seen
                 st.choices = st.choices + (snap,)
                 st.pc = pc + 1
                 continue
